@@ -10,7 +10,7 @@ from ..transfer_lab import Scenario, UploadFaults, dest_objects, failure_subsets
 RULE = (
     "scenario = generated trees + single files in a source cache; arbitrary initial destination contents (random subset of the "
     "request pre-delivered, plus unrelated objects); request closed or expanded; variants: objects missing from both sides "
-    "(file objects removed from the source), corrupt source objects under verify=True (base-class source); options hardlink on/off, destination opened read-only, a source index whose clear() times out on the failure path (raising = no claim); round = one "
+    "(file objects removed from the source), corrupt source objects under verify=True (base-class source); the request handed over as set / list / tuple / one-shot iterator / generator, options hardlink on/off, destination opened read-only, a source index whose clear() times out on the failure path (raising = no claim); round = one "
     "upload-failure subset (all subsets when <= 5 objects remain to be sent, sampled otherwise).  TransferResult is compared "
     "with an independent listing of the destination before/after, the upload log and a byte snapshot of the source.  "
     "non-trivial = something was new to the destination; distinct = (scenario content, initial contents, variant, failing subset)"
@@ -22,7 +22,7 @@ ASSUMPTIONS = [
 ]
 MONITORS = "TransferResult vs os.walk listings of the destination before/after, per-oid upload log, source byte snapshot and audit-hook mutation log on the source"
 REQUIRED_COUNTERS = [
-    "rounds_with_hardlink_option", "rounds_read_only_destination", "rounds_source_index_clear_fails", "rounds_source_vanishes", "corrupt_parseable_dir_objects", "rounds_with_index", "rounds_dest_with_state", "rounds", "rounds_with_failures", "rounds_with_preexisting", "rounds_missing_both_sides", "rounds_verify_corrupt_source",
+    "ids_as/iterator", "ids_as/generator", "rounds_with_hardlink_option", "rounds_read_only_destination", "rounds_source_index_clear_fails", "rounds_source_vanishes", "corrupt_parseable_dir_objects", "rounds_with_index", "rounds_dest_with_state", "rounds", "rounds_with_failures", "rounds_with_preexisting", "rounds_missing_both_sides", "rounds_verify_corrupt_source",
     "transferred_objects_checked", "source_snapshots_compared", "rounds_expanded", "rounds_local_dest", "rounds_remote_dest",
 ]
 
@@ -258,7 +258,12 @@ def run_shard(ctx):
                 refused = None
                 with Recorder([sc.src_root]) as rec, UploadFaults(sc, S) as uf:
                     try:
-                        r = transfer(src, sc.dest, ids, jobs=jobs, shallow=shallow, verify=verify, cache_odb=src, validate_status=vs_hook,
+                        form = rng.choice(["set", "set", "list", "tuple", "iterator", "generator"])
+                        res.count(f"ids_as/{form}")
+                        info["ids_as"] = form
+                        ids_arg = {"set": lambda: set(ids), "list": lambda: list(ids), "tuple": lambda: tuple(ids), "iterator": lambda: iter(list(ids)),
+                                   "generator": lambda: (i_ for i_ in list(ids))}[form]()
+                        r = transfer(src, sc.dest, ids_arg, jobs=jobs, shallow=shallow, verify=verify, cache_odb=src, validate_status=vs_hook,
                                      hardlink=hardlink, src_index=sidx)
                     except Exception as e:  # noqa: BLE001
                         from dvc_objects.errors import ObjectDBError as _ODBE2
